@@ -617,6 +617,35 @@ func (e *Env) RSharedState() {
 			n++
 			_, ok := sharedWritable[f]
 			key := fmt.Sprintf("%s writes only the documented shared state (%s)", load.FuncName(fd), f)
+			if ok && strings.HasSuffix(f, ".Fset") && ast.Unparen(l) != nil {
+				// a default: the caller's file set is replaced only when there is none
+				if se, isSel := ast.Unparen(l).(*ast.SelectorExpr); isSel && se.Sel.Name == "Fset" {
+					c := e.Sib.Ctx[load.PkgDecorator]
+					var target ast.Node
+					ast.Inspect(fd.Body, func(m ast.Node) bool {
+						if m != nil && m.Pos() == at {
+							if _, isStmt := m.(ast.Stmt); isStmt && target == nil {
+								target = m
+							}
+						}
+						return true
+					})
+					lhs := types.ExprString(se)
+					good := false
+					if target != nil {
+						if pc, okp := pathCond(c, fd.Body.List, target); okp {
+							for _, cj := range splitTopAnd(pc) {
+								cj = strings.TrimSpace(strings.TrimSuffix(strings.TrimPrefix(strings.TrimSpace(cj), "("), ")"))
+								if cj == lhs+" == nil" || cj == "nil == "+lhs {
+									good = true
+								}
+							}
+						}
+					}
+					e.Run.Check("R-SHARED", fmt.Sprintf("%s gives %s a default only when it is nil", load.FuncName(fd), f), e.Prog.Pos(at), good,
+						"the file set the caller supplied is overwritten (or a missing one is not created): positions of the restored file land in another file set than the caller's, or the nil file set is dereferenced")
+				}
+			}
 			if seen[key] && ok {
 				return
 			}
